@@ -124,4 +124,35 @@ PROPS = {
         "units": [unit("internalpkg", "^TestC12", tier(160000, 8, 600), tier(8000000, 16, 3400), fuzz=["FuzzFieldOps"])],
         "checks_expected": ["C12/ops", "C12/bytes"],
     },
+    "C10": {
+        "rule": "histories of 3..60 actions over a pool of 4 elements (initially O, G, 2G with Z != 1, -G) and 4 scalars (0, 1, n-1, "
+                "2^255+12345); 21 element actions (Base, Identity, Set, Copy, mutate-a-copy, Add, Subtract, Double, Negate, Multiply, nil "
+                "arguments, Decode of own encodings, Decode of generated possibly-invalid bytes, DecodeCoordinates of (mutated) "
+                "coordinates, HashToGroup, EncodeToGroup) and 21 scalar actions (constants, SetUInt64, Set, Copy, arithmetic, Invert, "
+                "Pow, Decode valid/invalid, HashToScalar, Random with scripted entropy, CSelect with any condition word, nil arguments); "
+                "receiver/argument indices drawn independently (aliasing). After every step every variable is compared with the model "
+                "(Encode, IsIdentity, IsZero, all Equal pairs, LessOrEqual pairs, curve membership). Non-trivial = history with >= 10 "
+                "steps, >= 1 aliased call and >= 1 operation producing Z != 1. Distinct by hash of the whole history.",
+        "units": [unit("props", "^TestC10", tier(2400, 8, 600), tier(120000, 16, 3400))],
+        "checks_expected": ["C10/history"],
+    },
+    "C15": {
+        "rule": "cases (call, arguments, layouts): call from 29 API functions in four groups - hashing (msg, DST), decoders (input "
+                "slice), slice-returning (Encode, EncodeUncompressed, XCoordinate, MarshalBinary, Order), pointer-argument methods; input "
+                "slices placed inside canary-filled buffers with interior offset in {0,1,5,32} and spare capacity in {0,1,7,64}, or msg and "
+                "DST adjacent in one backing array; whole backing arrays compared before/after; returned slices overwritten up to cap and "
+                "compared with later results, two results must not overlap; non-receiver operands keep their value. Non-trivial = an input "
+                "slice with cap > len / interior / shared, any slice-returning call, or a pointer argument in a non-default representation.",
+        "units": [unit("props", "^TestC15", tier(24000, 8, 600), tier(1200000, 16, 3400))],
+        "checks_expected": ["C15/memory"],
+    },
+    "C18": {
+        "rule": "entropy scripts substituted for crypto/rand.Reader: 0..4 blocks congruent to 0 mod n (0 or n) followed by a usable block "
+                "from {n+d, n+2^k, 2^256-d, n-d, small, [2^129.., 2^256), uniform} and a 64..96 byte tail; Read calls return chunks from "
+                "{32,1,31,7,16,33,64} bytes (cycled); optional fault (error, EOF, or bytes+error) either strictly before the first usable "
+                "block is complete (must panic) or >= 64 bytes after it (must succeed). Oracle: first complete block with v mod n != 0, "
+                "reduced. Non-trivial = more than one block, a fault, or a first block >= n. Distinct by case hash.",
+        "units": [unit("props", "^TestC18", tier(80000, 1, 600), tier(4000000, 1, 3400))],
+        "checks_expected": ["C18/random"],
+    },
 }
